@@ -307,6 +307,16 @@ func ruleC19Duplicates(c *Ctx) {
 	for _, src := range traceSources(mu.Key) {
 		if ld, ok := src.(*ssa.UnOp); ok {
 			if ia, ok := ld.X.(*ssa.IndexAddr); ok {
+				// ... of the list itself, whatever else the schema holds
+				if phi, isPhi := ia.X.(*ssa.Phi); isPhi {
+					other := ""
+					for _, e := range phi.Edges {
+						if !c.mentionsField(e, "Schema.PropertyOrder", 4) {
+							other = c.pos(phi)
+						}
+					}
+					c.R.Check(other == "", rule, "scan:the-list-itself", c.pos(ia), "what is scanned is PropertyOrder on every path", "on some path the duplicate scan runs over something else than Schema.PropertyOrder (an empty list when the schema has no properties, say): a PropertyOrder with a repeated name is then accepted for such a schema and marshals, although the documented contract is that Marshal fails")
+				}
 				if start, ok := indexStart(ia.Index); ok {
 					c.R.Check(start == 0, rule, "from-the-first-entry", c.pos(ia), "the scan of PropertyOrder starts at its first entry", fmt.Sprintf("the scan of PropertyOrder starts at entry %d: the entries before it are never recorded as seen, so a later repetition of one of them is accepted and the property is written twice", start))
 				}
